@@ -1104,7 +1104,7 @@ class MiniInterp:
             if m is None:
                 continue
             defined = True
-            r = self.call(self.prj.func(m.qual, raw=True), [other], {}, obj)
+            r = self.apply2(BoundFunc(self.prj.func(m.qual, raw=True), obj), [other], {})     # seen by the hooks like any other call
             if r is not NOTIMPL:
                 return r
         if defined:
@@ -1945,6 +1945,29 @@ class MiniInterp:
     def stdlib(self, full, base, args, kwargs, node):
         """operator / functools / itertools / collections helpers, interpreted"""
         mod = full.split(".")[0]
+        if full in ("dataclasses.astuple", "dataclasses.asdict", "dataclasses.replace", "dataclasses.fields") and args and isinstance(args[0], Sym) \
+                and args[0].cls is not None and args[0].cls.dataclass_fields() is not None and not args[0].cls.is_namedtuple():
+            names = [n_ for n_, _ in args[0].cls.dataclass_fields()]
+
+            def deep(v, as_dict):
+                if isinstance(v, Sym) and v.cls is not None and v.cls.dataclass_fields() is not None and not v.cls.is_namedtuple() and any(c.is_dataclass() for c in v.cls.mro()):
+                    ns = [n_ for n_, _ in v.cls.dataclass_fields()]
+                    return {n_: deep(v.fields[n_], True) for n_ in ns} if as_dict else tuple(deep(v.fields[n_], False) for n_ in ns)
+                if type(v) in (list, tuple):
+                    return type(v)(deep(x, as_dict) for x in v)
+                if type(v) is dict:
+                    return {k: deep(x, as_dict) for k, x in v.items()}
+                return v
+            if base == "astuple":
+                return deep(args[0], False)
+            if base == "asdict":
+                return deep(args[0], True)
+            if base == "replace":
+                if any(k not in names for k in kwargs):
+                    raise PyRaise("TypeError", node)
+                return self.construct(args[0].cls, [], {n_: kwargs.get(n_, args[0].fields[n_]) for n_ in names}, node, self.prj.func(next(iter(self.prj.funcs))))
+            if base == "fields":
+                return tuple(Sym("field", name=n_) for n_ in names)
         if full == "dataclasses.field" and not args:
             extra = set(kwargs) - {"default", "default_factory", "init", "repr", "compare", "hash", "kw_only", "metadata"}
             if extra:
